@@ -180,6 +180,8 @@ class LeanDriver:
         if not lines:
             return []
         data = "\n".join(lines) + "\n"
+        if os.environ.get("VERIF_DEBUG_DRIVER"):
+            Path(os.environ["VERIF_DEBUG_DRIVER"]).write_text(data)
         rc, out = sh(
             ["lake", "env", "lean", "--run", f"Driver/{self.name}.lean"],
             cwd=LEAN, timeout=timeout, input=data,
